@@ -13,10 +13,49 @@ class C02(Property):
     partial = ["C02_respell is proved at the token level (tokenizer laws + take_arg accepting Word and ArgWord alike); "
                "the whole-run respelling invariance is tied by the differential and metamorphic checks"]
 
+    def cluster_family(self, rng, gid):
+        """Small definitions built for clusters: 1-3 short flags and one short argument (names of every UTF-8
+        width), lines `-a -b -n v` and their clustered respellings."""
+        pool = list("abcxyz") + ["ж", "é", "日", "ñ", "\U0001F600"]
+        rng.shuffle(pool)
+        nf = rng.choice([1, 2, 3])
+        flags = [gen.flag(gen.named(short=[pool[i]])) for i in range(nf)]
+        an = pool[nf]
+        ty = rng.choice(["osstring", "string", "u32"])
+        a = gen.arg(gen.named(short=[an], long=["val"]), "V", ty)
+        wrapped = rng.choice([a, gen.wrap("optional", a), gen.wrap("many", a)])
+        fields = flags + [wrapped]
+        if rng.random() < 0.4:
+            fields.append(gen.wrap("many", gen.pos("REST", "osstring")))
+        opts = gen.options(gen.con(*fields), descr="Lc")
+        v = gen.gen_value(rng, ty, valid=True)
+        if not v or v.startswith(b"-") or v.startswith(b"="):
+            v = b"7"
+        used = [f for f in flags if rng.random() < 0.8] or flags[:1]
+        rng.shuffle(used)
+        letters = "".join(f["n"]["short"][0] for f in used).encode()
+        sep = [b"-" + f["n"]["short"][0].encode() for f in used]
+        anb = an.encode()
+        base = sep + [b"-" + anb, v]
+        out = [Case(gid + "b", opts, base, tags={"role": "base", "group": gid})]
+        variants = [("cl_sep", [b"-" + letters + anb, v]), ("cl_adj", [b"-" + letters + anb + v]),
+                    ("cl_flags_then_sep", [b"-" + letters, b"-" + anb, v]), ("sep_adj", sep + [b"-" + anb + v])]
+        for j, (form, argv) in enumerate(variants):
+            if form in ("cl_adj", "sep_adj") and not common.is_utf8(v):
+                continue
+            if form == "cl_adj" and b"=" in v:
+                continue        # `-abn=v` is not one of the listed spellings (read as -a with value bn=v)
+            out.append(Case("%sc%d" % (gid, j), opts, argv, tags={"role": "cluster", "group": gid, "letters": form, "form": form}))
+        return out
+
     def generate(self, rng, tier, n):
         cases = []
         k = 0
         while len(cases) < n:
+            if rng.random() < 0.3:
+                cases.extend(self.cluster_family(rng, "f%d" % k))
+                k += 1
+                continue
             opts, names = gen.gen_options(rng, features=("alt", "cmd", "pos"), allow_catch=False)
             # make value types byte-transparent now and then so that odd values are accepted
             for _ in range(3):
@@ -58,21 +97,33 @@ class C02(Property):
 
     @staticmethod
     def cluster(pieces):
-        """Merge maximal runs of adjacent single-short-flag chunks (`-a -b` -> `-ab`)."""
+        """Merge maximal runs of adjacent single-short-flag chunks (`-a -b` -> `-ab`); a run may end in a
+        short argument written `-n value` or `-nvalue` (`-a -n v` -> `-an v`, `-a -nv` -> `-anv`)."""
         out, run, merged = [], [], []
 
-        def flush():
-            if len(run) >= 2:
-                out.append(b"-" + b"".join(r[1:] for r in run))
-                merged.append(b"".join(r[1:] for r in run))
+        def flush(tail=None):
+            letters = b"".join(r[1:] for r in run)
+            if tail is not None and run:
+                first, rest = tail[0], tail[1:]
+                out.append(b"-" + letters + first[1:])
+                out.extend(rest)
+                merged.append(letters + first[1:])
+            elif len(run) >= 2:
+                out.append(b"-" + letters)
+                merged.append(letters)
             else:
                 out.extend(run)
+                if tail is not None:
+                    out.extend(tail)
             del run[:]
         for p in pieces:
             it = p.items
             if p.kind == "chunk" and p.chunk.node["k"] == "flag" and len(it) == 1 and it[0].startswith(b"-") \
                     and not it[0].startswith(b"--") and len(it[0].decode("utf-8", "ignore")) == 2:
                 run.append(it[0])
+            elif p.kind == "chunk" and p.chunk.node["k"] == "arg" and p.chunk.form in ("short_sep", "short_adj") and run \
+                    and common.is_utf8(it[0]) and b"=" not in it[0]:
+                flush(tail=list(it))
             else:
                 flush()
                 out.extend(it)
@@ -114,17 +165,33 @@ class C02(Property):
         return out, stats
 
     def known_class(self, cls, f):
-        t = f.case.tags
-        if f.kind != "violation" and not (f.kind == "disagree"):
+        c = f.case
+        if c.opts is None:
             return False
+        cases = [c] + list(f.related)
         if cls == "short_eq_multibyte":
-            # `-ж=v`: the short name is more than one byte long
-            for form_key in ("form", "from"):
-                if t.get(form_key) == "short_eq":
-                    pass
-            return self._uses_short_eq_multibyte(f.case)
+            # `-ж=v`, `-жk=v`: a short item containing `=` whose name is longer than one byte
+            return any(self._uses_short_eq_multibyte(x) for x in cases)
         if cls == "short_adj_non_utf8":
-            return self._uses_short_adj_non_utf8(f.case)
+            return any(self._uses_short_adj_non_utf8(x) for x in cases)
+        if cls == "hidden_short":
+            # a short name declared under hide() is unknown to the tokenizer: `-Qv` / `-aQ` spellings of it
+            hidden = set()
+            for x in gen.walk(c.opts):
+                if x["k"] == "hide":
+                    for y in gen.walk(x["p"]):
+                        if y["k"] in ("flag", "arg"):
+                            hidden.update(y["n"]["short"])
+            for x in cases:
+                for a in x.argv:
+                    if a.startswith(b"-") and not a.startswith(b"--") and len(a) > 2:
+                        try:
+                            txt = a[1:].decode("utf-8")
+                        except UnicodeDecodeError:
+                            continue
+                        if txt[1:2] != "=" and any(ch in hidden for ch in txt.split("=")[0]):
+                            return True
+            return False
         return False
 
     @staticmethod
@@ -134,7 +201,7 @@ class C02(Property):
     def _uses_short_eq_multibyte(self, case):
         for c in self._short_args(case):
             cb = c.encode()
-            if len(cb) > 1 and any(a.startswith(b"-" + cb + b"=") for a in case.argv):
+            if len(cb) > 1 and any(a.startswith(b"-" + cb) and b"=" in a for a in case.argv):
                 return True
         return False
 
